@@ -619,12 +619,43 @@ func (rw *rewriter) pkgFunc(c *ast.CallExpr) string {
 	if fn == nil || fn.Pkg() == nil {
 		return ""
 	}
-	if p := fn.Pkg().Path(); p == "sync" || p == "runtime" {
+	if p := fn.Pkg().Path(); p == "sync" || p == "runtime" || p == "time" {
 		if sig, _ := fn.Type().(*types.Signature); sig != nil && sig.Recv() == nil {
 			return p + "." + fn.Name()
 		}
 	}
 	return ""
+}
+
+// timeMethod: t.Reset/Stop on a *time.Timer or *time.Ticker; recv is a pointer expression.
+func (rw *rewriter) timeMethod(c *ast.CallExpr) (recv ast.Expr, tname, mname string, ok bool) {
+	se, isSel := c.Fun.(*ast.SelectorExpr)
+	if !isSel {
+		return
+	}
+	sel := rw.p.info.Selections[se]
+	if sel == nil || sel.Kind() != types.MethodVal || len(sel.Index()) != 1 {
+		return
+	}
+	fn, isFn := sel.Obj().(*types.Func)
+	if !isFn || fn.Pkg() == nil || fn.Pkg().Path() != "time" {
+		return
+	}
+	t := sel.Recv()
+	isPtr := false
+	if p, okp := t.(*types.Pointer); okp {
+		t = p.Elem()
+		isPtr = true
+	}
+	named, isNamed := t.(*types.Named)
+	if !isNamed || (named.Obj().Name() != "Timer" && named.Obj().Name() != "Ticker") {
+		return
+	}
+	recv = se.X
+	if !isPtr {
+		recv = &ast.UnaryExpr{Op: token.AND, X: se.X}
+	}
+	return recv, named.Obj().Name(), fn.Name(), true
 }
 
 // lockerMethod: x.Lock() / x.Unlock() where x has the interface type sync.Locker.
@@ -740,6 +771,27 @@ func (rw *rewriter) expr(e ast.Expr) ast.Expr {
 				if len(x.Args) == 0 {
 					return call("Gosched", rw.newSite(x.Pos(), "gosched"))
 				}
+			case "time.After", "time.NewTimer", "time.NewTicker", "time.Tick":
+				if len(x.Args) == 1 {
+					fn := map[string]string{"time.After": "TimeAfter", "time.NewTimer": "NewTimer", "time.NewTicker": "NewTicker", "time.Tick": "TimeTick"}[name]
+					return call(fn, x.Args[0], rw.newSite(x.Pos(), "timer"))
+				}
+			}
+		}
+		if recv, tname, mname, ok := rw.timeMethod(x); ok {
+			switch tname + "." + mname {
+			case "Timer.Reset":
+				if len(x.Args) == 1 {
+					return call("TimerReset", recv, x.Args[0], rw.newSite(x.Pos(), "timer"))
+				}
+			case "Timer.Stop":
+				return call("TimerStop", recv, rw.newSite(x.Pos(), "timer"))
+			case "Ticker.Reset":
+				if len(x.Args) == 1 {
+					return call("TickerReset", recv, x.Args[0], rw.newSite(x.Pos(), "timer"))
+				}
+			case "Ticker.Stop":
+				return call("TickerStop", recv, rw.newSite(x.Pos(), "timer"))
 			}
 		}
 		if recv, mname, ok := rw.lockerMethod(x); ok {
